@@ -23,7 +23,7 @@ ASSUMPTIONS = ['initial exits are declared well-formed (stop on the losing side,
                'price); jesse replaces wrong-sided initial exits by market orders, a documented convenience outside the statement',
                'current price = position.current_price at the instant of submission (equals strategy.price)',
                'decisions closer than 1e-12 to the 0.015 % threshold accept either type']
-MIN_OBS = {'routed_rows': 2000, 'routed_rows_near_boundary': 150, 'exit_modifications': 200, 'after_checks_with_position': 2000,
+MIN_OBS = {'declared_rows_checked': 3000, 'routed_rows': 2000, 'routed_rows_near_boundary': 150, 'exit_modifications': 200, 'after_checks_with_position': 2000,
            'cancel_decisions_yes': 150, 'cancel_decisions_no': 150, 'sweep_points': 1500}
 TH = 0.00015
 
@@ -60,6 +60,7 @@ def check_trace(events, aborted):
     last_exit_decl = {}
     in_terminate = set()
     step = {}            # symbol -> state of the current strategy step
+    cycle_start = {}     # symbol -> seq at which the current position cycle began
     calls = {}
     for e in events:
         k = e['k']
@@ -103,7 +104,41 @@ def check_trace(events, aborted):
                             break
                         free.remove(hit)
                     c('active_exits_matched', len(exits))
+                    # converse: every declared exit row is backed by an order of this cycle that is active or was executed
+                    mine = [o for o in book.o.values() if o['symbol'] == sym and o['reduce_only'] and
+                            o['seq'] >= cycle_start.get(sym, 0) and o['status'] in ('ACTIVE', 'EXECUTED')]
+                    pool = list(mine)
+                    for r in rows:
+                        hit = None
+                        for o in pool:
+                            if abs(r[0]) == abs(o['qty']) and (r[1] == o['price'] or
+                                                               (o['type'] == 'MARKET' and abs(1 - r[1] / o['price']) <= TH * 1.01)):
+                                hit = o
+                                break
+                        c('declared_rows_checked')
+                        if hit is None:
+                            v('declared_exit_row_without_order',
+                              f'after() at index {e["index"]}: declared exit row {r} (sl={d.get("sl")} tp={d.get("tp")}) has no active or '
+                              f'executed order in this position cycle; exit orders of the cycle: '
+                              f'{[(o["type"], o["qty"], o["price"], o["status"]) for o in mine][:6]}')
+                            break
+                        pool.remove(hit)
                 else:
+                    d = e['decl']
+                    for name, side in (('buy', 'buy'), ('sell', 'sell')):
+                        rws = d.get(name)
+                        if isinstance(rws, list) and rws:
+                            pool = [o for o in act if not o['reduce_only'] and o['side'] == side]
+                            for r in rws:
+                                hit = next((o for o in pool if abs(o['qty']) == abs(r[0]) and
+                                            (o['price'] == r[1] or (o['type'] == 'MARKET' and abs(1 - r[1] / o['price']) <= TH * 1.01))), None)
+                                c('declared_rows_checked')
+                                if hit is None:
+                                    v('declared_entry_row_without_order',
+                                      f'after() at index {e["index"]} (no position): declared {name} row {r} has no active order; '
+                                      f'active entries {[(o["type"], o["qty"], o["price"]) for o in pool][:6]}')
+                                    break
+                                pool.remove(hit)
                     if exits:
                         v('exit_order_active_after_position_closed',
                           f'after() at index {e["index"]} with a closed position: {len(exits)} exit orders still active',
@@ -217,6 +252,10 @@ def check_trace(events, aborted):
             o = book.o.get(e['o'])
             if o is not None and calls.get(e['o'], {}).get('status') == 'ACTIVE' and e['status'] == 'EXECUTED':
                 o['status'] = 'EXECUTED'
+                pb = (calls[e['o']].get('pos') or {}).get('qty')
+                pa = (e.get('pos') or {}).get('qty')
+                if pb == 0 and pa not in (0, None):
+                    cycle_start[o['symbol']] = calls[e['o']]['seq']
     return viol, cnt
 
 
@@ -241,6 +280,10 @@ def _session(job):
         sc['cancel_policy'] = rng.choice(['rnd', 'rnd', 'never', 'always'])
         sc['entry'] = rng.choice(['limit', 'stop', 'ladder', 'mixed', 'near'])
         sc['p_enter'] = rng.choice([0.2, 0.4])
+        if job['i'] % 5 == 4:
+            start = list(spec['candles'].values())[0].get('start', 100.0)
+            sc.update(abs_exits=[round(start * 0.97, 4), round(start * 1.03, 4)], fixed_qty=round(50.0 / start, 4), entry='market',
+                      p_update=0.0, on_reduced=None, on_increased=None, sides='long' if spec['config']['type'] == 'spot' else sc['sides'])
     out = session.run_session(spec, snapshots=True)
     viol, cnt = check_trace(out['events'], out['error'] is not None)
     cnt['sessions'] = 1
